@@ -133,9 +133,13 @@ func VH_c16_race() {
 			}
 		})
 	}
+	// two starts race between the stop of the old stream and the installation of the new channel:
+	// that window opens at a mutex release, so releases are pre-emption points here
+	verifrt.PreemptAtUnlock(true)
 	verifrt.PreemptOn()
 	verifrt.WaitIdle()
 	verifrt.PreemptOff()
+	verifrt.PreemptAtUnlock(false)
 	verifrt.Reach("both-done")
 	// whatever happened, a final stop must end every stream
 	hm.StopHeartbeat()
